@@ -325,11 +325,13 @@ func c19Verdicts(a *ChildArgs, r *rand.Rand, avoid map[string]bool, dir string) 
 		files = append(files, c19MakeFile(r, avoid, i))
 	}
 	for i := range files {
-		switch r.Intn(6) {
+		switch r.Intn(7) {
 		case 0:
 			files[i].name = "." + files[i].name // a dot-file
 		case 1:
 			files[i].name = filepath.Join("sub", ".cfg", files[i].name)
+		case 2:
+			files[i].name = "q[1]" + files[i].name // characters that also mean something in a glob pattern
 		}
 		switch r.Intn(5) {
 		case 0:
@@ -566,6 +568,16 @@ func c19Streams(a *ChildArgs, r *rand.Rand, avoid map[string]bool, dir string) {
 			}
 		}
 	}
+	// the stdin marker together with a file the library rejects: the file is an input like any other
+	os.WriteFile(filepath.Join(dir, "rejected.sql"), []byte("SELECT FROM WHERE\n"), 0644)
+	if run := c19ExecIn(dir, []byte("SELECT 1"), nil, "validate", "-", "rejected.sql"); !run.timedOut {
+		a.Rec.Count("evaluations", 1)
+		if run.rc == 0 {
+			a.Rec.Viol("C19/streams/validate-stdin-marker-and-file/exit-0-library-false", "commands exit with status zero exactly when the library accepts every given input",
+				"validate - rejected.sql (valid text on stdin) exits 0: the rejected file was ignored", map[string]interface{}{"stdout": trunc(run.out, 300), "stderr": trunc(run.err, 300)})
+		}
+	}
+	os.Remove(filepath.Join(dir, "rejected.sql"))
 	// inline texts with characters that also occur in file names
 	for _, q := range []string{"SELECT a / b FROM t", "SELECT a /* c */ FROM t", "SELECT 'x/y.sql' FROM t", "SELECT a FROM t WHERE p = 'q.sql'", "select a from t where b = 'C:\\dir'", "SELECT a FROM"} {
 		ok := c19LibAccepts(q)
